@@ -490,10 +490,8 @@ class Machine:
         if cpu is None:
             self.illegal("affinity to unknown cpu")
             return
-        if v == "r" and target.cpu is cpu:
-            # the statement does not say whether a remote "move" to the CPU the
-            # thread is already on is accepted
-            self.mark_dontcare("OAr to the same cpu")
+        # (a remote "move" to the CPU the thread is already on changes nothing and is legal like its local
+        # counterpart OAs; until finding F24 was repaired the emulator refused it and this was a don't-care)
         target.cpu.threads.remove(target)
         target.cpu = cpu
         cpu.threads.append(target)
